@@ -209,6 +209,8 @@ def interest_c05(mask, fdk, mcode, case):
         return 'queue() did not insert the event at the documented position or changed something else (C05_insert)'
     if not considered_event_ok(case):
         return 'the event considered is not the head of the internal queue if due, else of the external queue (C05_which)'
+    if case['op'][0] == 'exec' and case['out'][0] == 'macro' and case['out'][1] is None and expected_event(case) is not None:
+        return 'an event is due (head of a queue with due time <= step time) but execute_once returned None: not consumable as soon as due (C05_delay)'
     if mask & B.QUEUES and not (mask & (B.SELECTED | B.OUTCOME | B.MICRO)):
         return 'queues after the step differ although the same micro steps ran (C05_one/C05_conservation)'
     if mask & B.EVENT and not (mask & (B.SELECTED | B.OUTCOME)) and not fd_any(fdk, ('guard',)):
